@@ -718,7 +718,47 @@ func (b *builder) reductionBoundaries() {
 	}
 }
 
+// Digamma at 1/4 - m: the reflection term pi*cot(pi*x) is +-pi there (it vanishes at the half-integers of round 1)
+func (b *builder) digammaQuarter() {
+	psi1 := sp.Digamma(1)
+	for _, m := range []int{0, 1, 2, 3, 7, 20} {
+		x := 0.25 - float64(m)
+		ref := -math.Pi/2 - 3*math.Ln2
+		for k := 1; k <= m; k++ {
+			ref += 1 / (float64(k) - 0.25)
+		}
+		obs := sp.Digamma(x)
+		an := &Anchor{Fam: "digamma", Label: "bnd:quarter", Fn: "DigammaQuarter", H: int(2 * x), K: m, x: x, obs: obs, ref: ref,
+			Desc: fmt.Sprintf("Digamma(%v) - Digamma(1)", x), X2: fhex(psi1), Bnd: true}
+		an.tol = 64 * ulp * (math.Abs(obs) + math.Abs(psi1) + 1 + float64(m))
+		an.tac = ivTac(90)
+		an.goal = fmt.Sprintf("Rabs (psi_mquarter_diff %s - (%s - %s)) <= %s", nat(m), R(obs), R(psi1), R(an.tol))
+		b.add(an)
+	}
+}
+
+// LogErfc at the infinities: ln erfc(+Inf) = -Inf, ln erfc(-Inf) = ln 2
+func (b *builder) logErfcInfinities() {
+	o := sp.LogErfc(math.Inf(1))
+	an := &Anchor{Fam: "logerfc", Label: "bnd:x=+Inf", Fn: "LogErfc", x: math.Inf(1), obs: o, ref: math.Inf(-1), Desc: "LogErfc(+Inf) = -Inf exactly", Bnd: true}
+	if math.IsInf(o, -1) {
+		an.Skip, an.obs = "exact special value specified and observed", 0
+		b.add(an)
+	} else {
+		b.add(an)
+		an.NonFin = true
+	}
+	o2 := sp.LogErfc(math.Inf(-1))
+	an2 := &Anchor{Fam: "logerfc", Label: "bnd:x=-Inf", Fn: "LogErfc", x: math.Inf(-1), obs: o2, ref: math.Ln2, Desc: "LogErfc(-Inf) = ln 2", Bnd: true}
+	an2.tol = 2 * ulp
+	an2.tac = ivTac(90)
+	an2.goal = stdGoal("ln 2", o2, an2.tol)
+	b.add(an2)
+}
+
 func (b *builder) round2() {
+	b.logErfcInfinities()
+	b.digammaQuarter()
 	b.igammaBoundaries()
 	b.besselBoundaries()
 	b.zetaAnchors()
